@@ -39,6 +39,8 @@ def rep {α : Type} (p : Parser α) : Nat → Parser (List α)
 def many {α : Type} (p : Parser α) : Parser (List α) := do let n ← nat; rep p n
 def opt {α : Type} (p : Parser α) : Parser (Option α) := do
   let b ← nat; if b == 0 then pure none else do let x ← p; pure (some x)
+/-- an optional trailing item -/
+def opt' {α : Type} (p : Parser α) : Parser (Option α) := fun s => match p s with | some (a, r) => some (some a, r) | none => some (none, s)
 def atEnd : Parser Bool := fun s => some (s.isEmpty, s)
 
 def hexDigit (n : Nat) : Char := if n < 10 then Char.ofNat (48 + n) else Char.ofNat (87 + n)
